@@ -605,10 +605,17 @@ def r_chart(m, rep, R):
         if t is not None and canon(t) in (canon(IDX(('this',), V(pr[0]), V(pr[1]))),
                                           canon(IDX(('deref', ('this',)), V(pr[0]), V(pr[1])))):
             cellv = V(d.name)
-    rep.check(cellv is not None, R, _w(upd.line, 'chart::update'), 'update:cell',
+    # ... or update hands the decision to a method of the cell: return (*this)(row, column).insert(item, nbest_)
+    deleg = None
+    if cellv is None and len(P.paths) == 1 and P.paths[0][2] is not None:
+        r_ = P.paths[0][2]
+        sel = {canon(IDX(('this',), V(pr[0]), V(pr[1]))), canon(IDX(('deref', ('this',)), V(pr[0]), V(pr[1])))}
+        if r_[0] == 'mcall' and canon(r_[1]) in sel and len(r_[3]) == 2 and r_[3][0] == V(pr[2]):
+            deleg = (r_[2], r_[3][1])
+    rep.check(cellv is not None or deleg is not None, R, _w(upd.line, 'chart::update'), 'update:cell',
               'update(row, column, item) works on cell (row, column)',
               'update does not select cell (row, column)')
-    if cellv is None:
+    if cellv is None and deleg is None:
         return
     # the n-best flag: the bool field initialised from the constructor's second parameter
     flag = None
@@ -626,6 +633,21 @@ def r_chart(m, rep, R):
     if flag is None:
         raise AnalysisError('%s: cannot identify the n-best flag of chart' % H)
     A_ = M(('this',), flag)
+    if deleg is not None:
+        # judge the cell's method instead: same decision table over (keep-duplicates parameter, contains(item.cat))
+        cell0 = [k for k in ch.walk() if k.kind == 'CXXRecordDecl' and k.name == 'cell' and cxx.fields_of(k)][0]
+        meth = cxx.method(cell0, deleg[0])
+        mpr = [p_.name for p_ in cxx.params_of(meth)]
+        rep.check(len(mpr) == 2 and deleg[1] == A_, R, _w(upd.line, 'chart::update'), 'update:delegates',
+                  'update passes the item and the chart\'s n-best flag to cell::%s' % deleg[0],
+                  'update calls cell::%s with %s as second argument' % (deleg[0], canon(deleg[1])))
+        if len(mpr) != 2:
+            return
+        upd = meth
+        P = Paths(meth)
+        pr = [None, None, mpr[0]]
+        A_ = V(mpr[1])
+        cellv = ('this',)
     B_ = ('mcall', cellv, 'contains', (M(V(pr[2]), 'cat'),))
     keep_ret = ('addr', ('mcall', cellv, 'emplace', (V(pr[2]),)))
 
@@ -724,6 +746,23 @@ def r_chart(m, rep, R):
         ok = len(p) == 1 and p[0][2] is not None and canon(p[0][2]) == canon(IDX(M(('this',), fld), V(a)))
         rep.check(ok, R, _w(fn.line, 'chart::' + name), 'chart:' + name, '%s(i) returns %s[i]' % (name, fld),
                   '%s(i) returns %s' % (name, canon(p[0][2]) if p and p[0][2] else '?'))
+    if getattr(m, 'goal_is_cell', False):
+        # finished parses are kept in a bare cell: chart::size() is not what the search loop asks
+        csz = cxx.method(cell, 'size')
+        p = Paths(csz).paths
+        ok = len(p) == 1 and p[0][2] is not None and canon(p[0][2]) == canon(('mcall', M(('this',), 'items'), 'size', ()))
+        rep.check(ok, R, _w(csz.line, 'cell::size'), 'cell:size', 'cell.size() is items.size()', 'cell.size() is something else')
+        try:
+            cem = cxx.method(cell, 'empty')
+        except AnalysisError:
+            cem = None
+        if cem is not None:
+            p = Paths(cem).paths
+            ok = len(p) == 1 and p[0][2] is not None and canon(p[0][2]) in (canon(('mcall', M(('this',), 'items'), 'empty', ())),
+                                                                             canon(('bin', '==', ('mcall', M(('this',), 'items'), 'size', ()), LIT(0))),
+                                                                             canon(('bin', '==', ('mcall', ('this',), 'size', ()), LIT(0))))
+            rep.check(ok, R, _w(cem.line, 'cell::empty'), 'cell:empty', 'cell.empty() says whether the cell holds no item', 'cell.empty() is something else')
+        return
     sz = cxx.method(ch, 'size')
     p = Paths(sz).paths
     got = None
@@ -810,7 +849,15 @@ def r_search_loop(m, rep, R):
         calls = [term(n, env) for n in then.find('CXXMemberCallExpr')]
         want = ('mcall', V(m.goal), 'update', (LIT(0), LIT(0), topv))
         stmts = then.kids if then.kind == 'CompoundStmt' else [then]
-        ok = any(canon(c) == canon(want) for c in calls) and stmts and stmts[-1].kind == 'ContinueStmt' \
+        if getattr(m, 'goal_is_cell', False):
+            # finished parses collected in a bare cell: goal.emplace(top) / goal.insert(top, keep) -- possibly under the
+            # chart's own rule "keep every derivation in n-best mode, else the first of a category"
+            collected = [c for c in calls if c[0] == 'mcall' and c[1] == V(m.goal) and c[2] in ('emplace', 'insert', 'push_back', 'emplace_back', 'push_front')
+                         and c[3] and c[3][0] == topv]
+            hit = len(collected) == 1
+        else:
+            hit = any(canon(c) == canon(want) for c in calls)
+        ok = hit and stmts and stmts[-1].kind == 'ContinueStmt' \
             and not [s for s in m.sites if fin_if in list(s.node.ancestors())]
     rep.check(ok, R, _w(fin_if.line if fin_if is not None else m.main_loop.line), 'search:goal-collect',
               'a finished item only enters the goal cell (goal.update(0,0,item); continue)',
@@ -1259,6 +1306,25 @@ def r_nbest(m, rep, R):
     cfg = V(m.p_config)
     for name in (m.chart, m.goal):
         a = m.chart_args[name]
+        if name == m.goal and getattr(m, 'goal_is_cell', False):
+            # a bare cell keeps what it is given: duplicates are kept when every finished item is put in, or when the
+            # insertion is conditioned / parameterised by nbest > 1 (and the first-of-a-category rule otherwise)
+            keep = canon(('bin', '>', M(cfg, 'nbest'), LIT(1)))
+            ins = [term(n, env) for n in m.main_loop.find('CXXMemberCallExpr')]
+            ins = [t for t in ins if t[0] == 'mcall' and t[1] == V(m.goal) and t[2] in ('emplace', 'insert', 'push_back', 'emplace_back', 'push_front')]
+            okc = len(ins) == 1
+            if okc and len(ins[0][3]) == 2:
+                okc = canon(ins[0][3][1]) == keep
+            elif okc:
+                node = [n for n in m.main_loop.find('CXXMemberCallExpr') if term(n, env) == ins[0]][0]
+                conds = [c for c in cxx.context(node, env, stop=m.body) if c[0] == 'if' and c[3] is not None and any(
+                    x == V(m.goal) for x in subterms(c[1]))]
+                for c in conds:
+                    ds = {canon(x) for x in disjuncts(c[1])} if c[2] is True else set()
+                    okc = okc and c[2] is True and keep in ds and len(ds) == 2 and any('contains' in d_ and '!' in d_ for d_ in ds)
+            rep.check(okc, R, _w(m.locals[name].line), 'nbest:mode:goal', '%s keeps duplicates exactly when config.nbest > 1 (or keeps every finished item)' % name,
+                      'finished items are put into %s by %s' % (name, [show(t) for t in ins]))
+            continue
         ok = a is not None and len(a) == 2 and canon(a[1]) == canon(('bin', '>', M(cfg, 'nbest'), LIT(1)))
         rep.check(ok, R, _w(m.locals[name].line), 'nbest:mode:' + ('chart' if name == m.chart else 'goal'),
                   '%s keeps duplicates exactly when config.nbest > 1' % name,
@@ -1266,7 +1332,7 @@ def r_nbest(m, rep, R):
     # after the loop: cell = goal(0,0); cell.sort(); for item in cell: token_id = 0; finalizer(&item, &token_id, cache, args)
     idx = m.top.index(m.main_loop)
     tail = m.top[idx + 1:]
-    goal_cell = IDX(V(m.goal), LIT(0), LIT(0))
+    goal_cell = V(m.goal) if getattr(m, 'goal_is_cell', False) else IDX(V(m.goal), LIT(0), LIT(0))
     cell_names = {canon(goal_cell)}
     for st in tail:
         for d in st.find('VarDecl'):
